@@ -1,12 +1,13 @@
 /-
 C06 — Compiled bytecode computes what the interpreter computed.
 
-Two models carry the statements: the constant codec (Model/Const.lean — `ConstElem::write_le` /
-`from_le`) and `run_program` as a register machine (Model/RunProgram.lean).  The compile side
+Three models carry the statements: the constant codec (Model/Const.lean — `ConstElem::write_le` /
+`from_le`), the codec of kinds and of set and table constants (Model/ConstValue.lean) and `run_program` as a register machine (Model/RunProgram.lean).  The compile side
 (which function name and which registers each generated function struct emits) is not modelled:
 the correspondence check runs it and compares.
 -/
 import MechVerif.Lemmas.Const
+import MechVerif.Lemmas.ConstValue
 import MechVerif.Model.RunProgram
 namespace MechVerif.RunProgram
 open MechVerif.Const
@@ -93,3 +94,51 @@ theorem C06_no_operation_no_result (regCount : Nat) (consts : List String) (load
   simp [runProgram, h1, h2]
 
 end MechVerif.RunProgram
+
+/-! ### compound constants: kinds, sets, tables (Model/ConstValue.lean) -/
+namespace MechVerif.ConstValue
+open MechVerif.Const
+
+/-- A kind is read back as written: every scalar kind, matrix and set kinds over a scalar element
+    kind, enum kinds, and table kinds whose columns are, recursively, such kinds — for any fuel that
+    covers the nesting depth, whatever follows in the buffer. -/
+theorem C06_kind_roundtrip (vk : VK) (h : readable vk) (fuel : Nat) (hf : costVK vk ≤ fuel) (rest : List Crc.Byte) :
+    decodeVK fuel (encodeVK vk ++ rest) = some vk := decodeVK_encodeVK vk h fuel hf rest
+
+/-- An element nested in a compound constant (its kind tag, then its scalar payload: integers of
+    every width and sign, floats, strings, bools, rationals, complex numbers, the empty value) is read
+    back as the same value of the same kind, and the buffer is left where the next element starts. -/
+theorem C06_nested_value_roundtrip (v : NV) (h : v.wf) (rest : List Crc.Byte) :
+    decodeNV (encodeNV v ++ rest) = some (v, rest) := decodeNV_encodeNV v h rest
+
+/-- A set constant is read back with its element kind, its count and its elements in order. -/
+theorem C06_set_const_roundtrip (s : SetC) (h : s.wf) (rest : List Crc.Byte) :
+    decodeSet (encodeSet s ++ rest) = some s := decodeSet_encodeSet s h rest
+
+/-- A table constant is read back with its kind, its shape and, for every column in order, the
+    column's id, kind, elements and name. -/
+theorem C06_table_const_roundtrip (t : TableC) (h : t.wf) (rest : List Crc.Byte) :
+    decodeTable (encodeTable t ++ rest) = some t := decodeTable_encodeTable t h rest
+
+/-- Not every kind the compiler writes is read back: the kind of a set of sets is cut short (the
+    decoder steps over the inner kind by one byte), so such a constant does not load — it is an
+    error, never another value (the region of finding C06-D1 / C07-D6). -/
+theorem C06_nested_set_kind_not_read : decodeVK 8 (encodeVK (.set (.set (.simple 12) none) none)) = none :=
+  nested_set_kind_misread
+
+/-- `|a<u8> b<i128>| 1 -2 | 3 -4 |` -/
+def exTable : TableC :=
+  { kind := .table [([0x61#8], .simple 1), ([0x62#8], .simple 10)] 2, rows := 2, cols := 2,
+    columns := [⟨7, .simple 1, 2, 1, [.scalar (.uint 1 1), .scalar (.uint 1 3)], [0x61#8]⟩,
+                ⟨9, .simple 10, 2, 1, [.scalar (.sint 16 (-2)), .scalar (.sint 16 (-4))], [0x62#8]⟩] }
+
+example : exTable.wf := by
+  refine ⟨by simp [exTable, readable, fieldsReadable], by decide, by decide, rfl, ?_⟩
+  intro c hc
+  simp only [exTable, List.mem_cons, List.not_mem_nil, or_false] at hc
+  rcases hc with h | h <;> subst h <;>
+    exact ⟨by decide, by simp [readable], by decide, by decide, by decide, rfl,
+      by intro v hv; simp only [List.mem_cons, List.not_mem_nil, or_false] at hv; rcases hv with h | h <;> subst h <;>
+         (constructor <;> simp [NV.wf, CV.wf, CV.kind, tagOfEk]), by decide⟩
+
+end MechVerif.ConstValue
